@@ -32,3 +32,5 @@ def run(ctx):
     fz.accept_implies_positive(ctx)
     fz.beta_divisions_guarded(ctx)
     fz.beta_tracks_residual(ctx)
+    fz.residual_checked_against_basis(ctx)
+    fz.thresholds_homogeneous(ctx)
